@@ -224,7 +224,15 @@ fn mk_stack(log: Arc<LayerLog>, how: u64) -> Dispatch {
         .with(RecLayer { layer: 0, log: log.clone() })
         .with(RecLayer { layer: 1, log })
         .with(ErrorSubscriber::default());
-    match how % 5 {
+    match how % 6 {
+        // tree-shaped: the two recording layers composed with `and_then` first (the
+        // `Subscribe for Layered` implementation instead of `Collect for Layered`): every
+        // notification still reaches layer 0 before layer 1
+        5 => Dispatch::new(
+            Registry::default()
+                .with(RecLayer { layer: 0, log: log2.clone() }.and_then(RecLayer { layer: 1, log: log2 }))
+                .with(ErrorSubscriber::default()),
+        ),
         0 => Dispatch::new(s),
         1 => Dispatch::new(Arc::new(s)),
         2 => Dispatch::new(Box::new(s)),
@@ -1216,7 +1224,7 @@ pub fn run_history(seed: u64, idx: u64, fresh: Arc<Fresh>, w: Weights, max_ops: 
     let mut r0 = Rng::derive(seed, 0xC05A, idx);
     let nthreads = 1 + r0.usize(3);
     let logs: Vec<Arc<LayerLog>> = (0..2).map(|_| Arc::new(LayerLog::default())).collect();
-    let how0 = r0.below(5);
+    let how0 = r0.below(6);
     let disp: Vec<Dispatch> = logs.iter().enumerate().map(|(i, l)| mk_stack(l.clone(), how0 + i as u64)).collect();
     let world = Arc::new(Mutex::new(World {
         disp,
